@@ -95,6 +95,11 @@ pub struct Evaluator<'a> {
     pub call_hook: &'a dyn Fn(&Evaluator, &str, &[Val]) -> Option<Result<Val, String>>,
 }
 
+thread_local! {
+    /// constants that input-derived integers were compared with (for region refinement)
+    pub static CMP_LOG: std::cell::RefCell<std::collections::BTreeSet<i128>> = std::cell::RefCell::new(std::collections::BTreeSet::new());
+}
+
 pub fn no_hook(_: &Evaluator, _: &str, _: &[Val]) -> Option<Result<Val, String>> {
     None
 }
@@ -133,6 +138,31 @@ pub fn int_const(ty: &str, which: &str) -> Option<i128> {
         "MIN" => Some(min),
         "MAX" => Some(max),
         _ => None,
+    }
+}
+
+/// copy assignments made to outer-scope variables inside a nested scope back to the outer env
+fn merge_back_shadow_safe(outer: &mut Env, inner: &Env, pat: &syn::Pat) {
+    // names bound by the pattern shadow outer names inside the branch: do not copy those back
+    let mut bound = vec![];
+    crate::model::collect_idents(&quote::ToTokens::to_token_stream(pat), &mut bound);
+    let keys: Vec<String> = outer.keys().cloned().collect();
+    for k in keys {
+        if bound.contains(&k) {
+            continue;
+        }
+        if let Some(v) = inner.get(&k) {
+            outer.insert(k, v.clone());
+        }
+    }
+}
+
+fn merge_back(outer: &mut Env, inner: &Env) {
+    let keys: Vec<String> = outer.keys().cloned().collect();
+    for k in keys {
+        if let Some(v) = inner.get(&k) {
+            outer.insert(k, v.clone());
+        }
     }
 }
 
@@ -562,6 +592,11 @@ impl<'a> Evaluator<'a> {
                 let r = self.eval(&b.right, env)?;
                 match (&l, &r) {
                     (Val::Int { v: x, input: i1 }, Val::Int { v: y, input: i2 }) => {
+                        if *i1 && !*i2 {
+                            CMP_LOG.with(|l| l.borrow_mut().insert(*y));
+                        } else if *i2 && !*i1 {
+                            CMP_LOG.with(|l| l.borrow_mut().insert(*x));
+                        }
                         let cmp = |f: fn(&i128, &i128) -> bool| Ok(Val::Bool(f(x, y)));
                         match &b.op {
                             Lt(_) => cmp(|a, b| a < b),
@@ -615,7 +650,11 @@ impl<'a> Evaluator<'a> {
                     let v = self.eval(&l.expr, env)?;
                     let mut e2 = env.clone();
                     return match self.pat_match(&l.pat, &v, &mut e2) {
-                        PatM::Yes => self.eval_block(&i.then_branch, &mut e2),
+                        PatM::Yes => {
+                            let r = self.eval_block(&i.then_branch, &mut e2);
+                            merge_back_shadow_safe(env, &e2, &l.pat);
+                            r
+                        }
                         PatM::No => match &i.else_branch {
                             Some((_, e)) => self.eval(e, env),
                             None => Ok(Val::Unit),
@@ -626,7 +665,9 @@ impl<'a> Evaluator<'a> {
                 match self.eval(&i.cond, env)? {
                     Val::Bool(true) => {
                         let mut e2 = env.clone();
-                        self.eval_block(&i.then_branch, &mut e2)
+                        let r = self.eval_block(&i.then_branch, &mut e2);
+                        merge_back(env, &e2);
+                        r
                     }
                     Val::Bool(false) => match &i.else_branch {
                         Some((_, e)) => self.eval(e, env),
@@ -637,12 +678,26 @@ impl<'a> Evaluator<'a> {
             }
             Expr::Block(b) => {
                 let mut e2 = env.clone();
-                self.eval_block(&b.block, &mut e2)
+                let r = self.eval_block(&b.block, &mut e2);
+                merge_back(env, &e2);
+                r
+            }
+            Expr::Assign(a) => {
+                let v = self.eval(&a.right, env)?;
+                match &*a.left {
+                    Expr::Path(p) if p.path.segments.len() == 1 => {
+                        env.insert(p.path.segments[0].ident.to_string(), v);
+                        Ok(Val::Unit)
+                    }
+                    other => Err(format!("unsupported assignment target `{}`", tok(other))),
+                }
             }
             Expr::Match(m) => {
                 let v = self.eval(&m.expr, env)?;
                 let (i, mut e2) = self.select_arm(m, &v, env)?;
-                self.eval(&m.arms[i].body, &mut e2)
+                let r = self.eval(&m.arms[i].body, &mut e2);
+                merge_back_shadow_safe(env, &e2, &m.arms[i].pat);
+                r
             }
             Expr::Return(r) => {
                 let v = match &r.expr {
